@@ -184,6 +184,16 @@ def gen(tier: str, seed: int) -> list[Case]:
                     # the option parsers are case-insensitive: spell the values differently from run to run
                     sp = [str.lower, str.upper, str.capitalize][(i + STYLES.index(style) + len(pref) + len(warn)) % 3]
                     cases.append(Case(cid=f"c14-{i}-{style}-{pref}-{warn}", files=files, opts=["--docstyle", sp(style), "-tsp", sp(pref), "-tsw", sp(warn)], meta={"funcs": sfuncs, "style": style, "pref": pref, "warn": warn, "group": (i, style, pref)}, reach=REACH))
+    # the warn / ignore relation on packages without a model: every declaration form of C01's library (docstrings of
+    # every style, documented types that differ from hints) under each structured style and both preferences
+    from . import c01
+
+    for i in range(1 if tier == "quick" else 20):
+        ks = c01.kitchen_sink(rng_for(seed, PID, "kitchen-sink", i), gated, 210 + i)
+        for style in STYLES:
+            for pref in ("code", "docstring"):
+                for warn in ("warn", "ignore"):
+                    cases.append(Case(cid=f"c14-kitchen{i}-{style}-{pref}-{warn}", files=ks, opts=["--docstyle", style, "-tsp", pref, "-tsw", warn], meta={"relation_only": True, "style": style, "pref": pref, "warn": warn, "group": ("k", i, style, pref)}, reach=REACH))
     return cases
 
 
@@ -201,8 +211,21 @@ def make_judge(chk: Check):
 
     def judge(case: Case, rec: dict, probe=None) -> list[Viol]:
         viols = []
-        funcs = case.meta["funcs"]
         pref, warn, style = case.meta["pref"], case.meta["warn"], case.meta["style"]
+        if case.meta.get("relation_only"):
+            # no model: the warning setting must not change any output file, and IGNORE must be silent
+            if warn == "ignore" and any(n == "root" and lv == "WARNING" and m_.startswith("Different type hint and docstring types") for n, lv, m_ in rec["logs"]):
+                viols.append(Viol("warning-under-ignore", f"model-free:{style}:{pref}", {"case": case.cid}))
+            g = case.meta["group"]
+            store.setdefault(g, {})[warn] = rec["tree"]
+            if len(store[g]) == 2:
+                if store[g]["warn"] != store[g]["ignore"]:
+                    diff = sorted(k for k in set(store[g]["warn"]) | set(store[g]["ignore"]) if store[g]["warn"].get(k) != store[g]["ignore"].get(k))
+                    viols.append(Viol("warning-setting-changes-output", f"model-free:{pref}", {"files": diff, "style": style}))
+                chk.case_ok(f"warn-vs-ignore:model-free:{style}:{pref}")
+                del store[g]
+            return viols
+        funcs = case.meta["funcs"]
         ss = StubSet(rec["tree"])
         for e in ss.errors.values():
             chk.discarded[f"unparsable-stub:{e.rule}"] += 1
